@@ -32,8 +32,7 @@ type replayT struct {
 }
 
 // classes of the generator streams (each is a listed finding; the `dom` stream enables none)
-var classes = []string{"multi-shortcut", "struct-lit-assign", "define-lit-in-loop", "lookup2-stale", "multidefine-redeclared",
-	"multidefine-sequential", "append-alias-args"}
+var classes = []string{"define-lit-in-loop", "lookup2-define-in-loop", "multidefine-redeclared", "append-alias-args"}
 
 // canonStatus: which run-time fault ended the program is not compared (when a statement has two faulting
 // operands the order in which they are detected is not part of the property); that it panicked is.
@@ -96,6 +95,8 @@ func yaegiObs(src string) string {
 func goObs(g common.GoResult) string {
 	st := "ok"
 	switch {
+	case strings.HasPrefix(g.CompileErr, "toolchain: "):
+		return "toolchain-failure:" + strings.ReplaceAll(common.FirstLine(g.CompileErr), " ", "_") + "~"
 	case g.CompileErr != "":
 		return "cerr:" + strings.ReplaceAll(common.FirstLine(g.CompileErr), " ", "_") + "~"
 	case g.Timeout:
@@ -130,7 +131,7 @@ func runAllYaegi(srcs []string) []string {
 // error is not attributed to a package by common.RunGoBatch) the batch is halved until the culprit is alone.
 func goBatch(srcs []string) []string {
 	out := make([]string, len(srcs))
-	gr, err := common.RunGoBatch(srcs, 20*time.Second)
+	gr, err := runGoBatchPrivate(srcs, 20*time.Second)
 	if err == nil {
 		for i := range srcs {
 			out[i] = goObs(gr[i])
@@ -150,6 +151,7 @@ func goBatch(srcs []string) []string {
 func runAllGo(srcs []string, run *common.Run) []string {
 	res := make([]string, len(srcs))
 	const batch = 250
+	const wave = 4 // `go build` is itself parallel
 	type job struct{ lo, hi int }
 	var jobs []job
 	for lo := 0; lo < len(srcs); lo += batch {
@@ -159,21 +161,21 @@ func runAllGo(srcs []string, run *common.Run) []string {
 		}
 		jobs = append(jobs, job{lo, hi})
 	}
-	var wg sync.WaitGroup
-	sem := make(chan struct{}, 4) // `go build` is itself parallel
-	for _, j := range jobs {
-		wg.Add(1)
-		sem <- struct{}{}
-		go func(j job) {
-			defer wg.Done()
-			defer func() { <-sem }()
-			out := goBatch(srcs[j.lo:j.hi])
-			for i := j.lo; i < j.hi; i++ {
-				res[i] = out[i-j.lo]
-			}
-		}(j)
+	for w := 0; w < len(jobs); w += wave {
+		var wg sync.WaitGroup
+		for k := w; k < w+wave && k < len(jobs); k++ {
+			wg.Add(1)
+			go func(j job) {
+				defer wg.Done()
+				out := goBatch(srcs[j.lo:j.hi])
+				for i := j.lo; i < j.hi; i++ {
+					res[i] = out[i-j.lo]
+				}
+			}(jobs[k])
+		}
+		wg.Wait()
+		trimGoCache()
 	}
-	wg.Wait()
 	return res
 }
 
@@ -364,6 +366,7 @@ func main() {
 	run := common.NewRun("C04")
 	run.Res.Rule = "cases = operation sequences (4–12 statements after a pool of 3–5 declarations) over variables of nested composite types (arrays of structs, structs with array/slice/map/pointer fields, slices of slices and of arrays, pointers to ints/structs/arrays, maps to ints/structs/arrays/slices, slices of pointers), drawn by a seeded type-directed generator from: assign / op-assign to variables, fields, elements and pointees; define; multi-assign (swaps, rotations, index variable and element in one statement); multi-define; append (in place and growing), append of a slice, copy (overlapping), 2- and 3-index slicing of slices, arrays and array pointers; map insert / delete / lookup / comma-ok lookup; address-of, dereference (explicit and automatic); passing to and returning from functions (identity, and one that mutates its parameter); range over arrays and slices with mutation in the body; closures capturing a per-iteration variable; statements wrapped in immediately called closures. Each program prints the whole pool (deep rendering: no addresses, len/cap and nil-ness of slices) after every statement. Every statement is checked against the Lean specification model while generating, so sequences are panic-free except for a deliberate share of panicking last statements. Streams: dom (inside the domain of ops_refine_partial) 60 %, one listed divergence class enabled 30 %, all enabled 10 %. non-trivial = at least 5 statements and two different reference-creating or reference-using constructs (address-of, slicing, new, append, copy, map insert, call, multi-assign, capture, range over slice, …); distinct = distinct protocol line"
 	defer run.Finish()
+	defer setupGoCache(run)()
 	drv, err := common.StartDriver("C04")
 	if err != nil {
 		run.Errorf("driver: %v", err)
